@@ -808,10 +808,21 @@ def al1(ctx):
         # the negative answer is given on the "not a leaf" outcome of the GetKind comparison
         gk = [c for c in calls_in(f.body, {'GetKind'})]
         ok = False
+        # the comparison may have been given a name first (`const bool not_leaf = GetKind(...) != Leaf;
+        # if (not_leaf)`): the branch on that local stands for the branch on the comparison
+        named = {}
+        for v in f.body.walk():
+            if v.kind == 'VarDecl' and v.name and v.kids and gk and any(x is gk[0] for x in v.kids[-1].walk()):
+                named[v.name] = strip_casts(v.kids[-1])
         for cn in cfg.nodes:
-            if not gk or cn.kind != 'cond' or cn.ast is None or not any(x is gk[0] for x in cn.ast.walk()):
+            if not gk or cn.kind != 'cond' or cn.ast is None:
                 continue
             a, pos = unnegate(cn.ast)
+            if a is not None and member_path(a) in named:
+                a2, pos2 = unnegate(named[member_path(a)])
+                a, pos = a2, (pos == pos2)
+            elif not any(x is gk[0] for x in cn.ast.walk()):
+                continue
             if a is None or a.kind != 'BinaryOperator' or a.op not in ('==', '!=') or 'Leaf' not in a.text(4):
                 continue
             not_leaf = (a.op == '!=') == pos
